@@ -1,3 +1,5 @@
+//go:build verif
+
 package main
 
 // Verification harness (injected with `go test -overlay`; not part of the repository).
@@ -22,6 +24,7 @@ import (
 	"sort"
 	"strconv"
 	"strings"
+	"sync"
 	"testing"
 	"time"
 
@@ -57,12 +60,19 @@ type vhStep struct {
 	A     string          `json:"a"`
 	Api   string          `json:"api"`
 	Tg    [][]any         `json:"tg"`
-	Perms [][]string      `json:"perms"`
+	Perms vhPerms         `json:"perms"`
 	Arg   string          `json:"arg"`
 	Lat   int             `json:"lat"`
 	Err   bool            `json:"err"`
 	Probe string          `json:"probe"`
 	Raw   json.RawMessage `json:"-"`
+}
+
+// vhPerms is the principal's ACL entry: allow / deny rules as [action, name] pairs and the default policy.
+type vhPerms struct {
+	Allow [][]string `json:"allow"`
+	Deny  [][]string `json:"deny"`
+	Dflt  bool       `json:"dflt"`
 }
 
 type vhSched struct {
@@ -86,6 +96,68 @@ type vhStore struct {
 
 func (s *vhStore) Available() bool { return s.up }
 
+// vhS3 wraps the in-memory bucket: uploads for the partitions listed in fail are refused (both objects), and the
+// rating of the real monitor is read at the start of every segment upload (= while the broker writes that partition).
+type vhS3 struct {
+	*storage.MemoryS3Client
+	mu       sync.Mutex
+	e        *vhEnv
+	fail     map[string]bool   // "topic|partition"
+	nfail    int               // refused upload calls (each one is recorded by the log as one failed S3 operation)
+	healthAt map[string]string // "topic|partition" -> rating when its segment upload started
+}
+
+func vhPartOfKey(key string) string {
+	f := strings.Split(key, "/") // ns/topic/partition/object
+	if len(f) < 4 {
+		return ""
+	}
+	return f[1] + "|" + f[2]
+}
+
+func (s *vhS3) UploadSegment(ctx context.Context, key string, body []byte) error {
+	pk := vhPartOfKey(key)
+	st := string(s.e.h.s3Health.State())
+	s.mu.Lock()
+	if _, ok := s.healthAt[pk]; !ok {
+		s.healthAt[pk] = st
+	}
+	refuse := s.fail[pk]
+	if refuse {
+		s.nfail++
+	}
+	s.mu.Unlock()
+	if refuse {
+		return vhBoom
+	}
+	return s.MemoryS3Client.UploadSegment(ctx, key, body)
+}
+
+func (s *vhS3) UploadIndex(ctx context.Context, key string, body []byte) error {
+	pk := vhPartOfKey(key)
+	s.mu.Lock()
+	refuse := s.fail[pk]
+	if refuse {
+		s.nfail++
+	}
+	s.mu.Unlock()
+	if refuse {
+		return vhBoom
+	}
+	return s.MemoryS3Client.UploadIndex(ctx, key, body)
+}
+
+func (s *vhS3) arm(fail []vhTarget) {
+	s.mu.Lock()
+	s.fail = map[string]bool{}
+	for _, tg := range fail {
+		s.fail[vhKey(tg.name, tg.part)] = true
+	}
+	s.nfail = 0
+	s.healthAt = map[string]string{}
+	s.mu.Unlock()
+}
+
 type vhSample struct {
 	lat time.Duration
 	err bool
@@ -97,6 +169,8 @@ type vhEnv struct {
 	h       *handler
 	store   *vhStore
 	s3      *storage.MemoryS3Client
+	s3w     *vhS3
+	gate    *vhGate
 	fed     []vhSample
 	hcfg    broker.S3HealthConfig
 	member  string
@@ -677,7 +751,8 @@ func (e *vhEnv) setup(ctx context.Context, endpoints []string) {
 	}
 	e.store = &vhStore{Store: inner, up: true}
 	e.s3 = storage.NewMemoryS3Client()
-	h := newHandler(e.store, e.s3, brokerInfo, testLoggerVH())
+	e.s3w = &vhS3{MemoryS3Client: e.s3, e: e, fail: map[string]bool{}, healthAt: map[string]string{}}
+	h := newHandler(e.store, e.s3w, brokerInfo, testLoggerVH())
 	h.autoCreateTopics = e.sched.Auto
 	h.autoCreatePartitions = vhNP
 	h.allowAdminAPIs = true
@@ -898,8 +973,12 @@ func TestVerifHandlerReplay(t *testing.T) {
 			case "Req":
 				e.nreq++
 				tgs := vhTargets(step.Tg)
-				e.h.authorizer = acl.NewAuthorizer(acl.Config{Enabled: true, DefaultPolicy: "deny",
-					Principals: []acl.PrincipalRules{{Name: vhPrincipal, Allow: vhRules(step.Perms)}}})
+				policy := "deny"
+				if step.Perms.Dflt {
+					policy = "allow"
+				}
+				e.h.authorizer = acl.NewAuthorizer(acl.Config{Enabled: true, DefaultPolicy: policy,
+					Principals: []acl.PrincipalRules{{Name: vhPrincipal, Allow: vhRules(step.Perms.Allow), Deny: vhRules(step.Perms.Deny)}}})
 				e.installMonitor()
 				health := string(e.h.s3Health.State())
 				owner0 := make([]string, len(tgs))
@@ -936,8 +1015,11 @@ func TestVerifHandlerReplay(t *testing.T) {
 					wire = "ListOffsets"
 				}
 				perms := step.Perms
-				if perms == nil {
-					perms = [][]string{}
+				if perms.Allow == nil {
+					perms.Allow = [][]string{}
+				}
+				if perms.Deny == nil {
+					perms.Deny = [][]string{}
 				}
 				line := map[string]any{"ev": "Req", "api": wire, "mapi": step.Api, "tg": step.Tg, "perms": perms, "leasing": e.etcd,
 					"storeUp": e.store.up, "leaseUp": !e.etcd || e.leaseUp, "health": health, "auto": s.Auto,
